@@ -12,8 +12,10 @@ import (
 
 func init() {
 	register(&Property{
-		ID:  "C11",
-		Gen: genC11,
+		ID:    "C11",
+		Files: []string{"monadIO.go", "handler.go"},
+		Funcs: []string{"MonadIODef", "MonadIO"},
+		Gen:   genC11,
 		Rule: "a composition tree over Just / New(effect) / FlatMap(f) of depth <= 4 generated from the scenario tape (every effect and every f logs id + thread); the tree is only built (log must stay empty), " +
 			"Eval'ed 0..3 times, and Subscribed from 1..3 threads with each nil/non-nil combination of ObserveOn(h1)/SubscribeOn(h2) and with a Subscription without OnNext; a reference interpreter of the tree gives the " +
 			"expected value and effect order; the three monad laws are checked as behavioural equalities on generated instances; non-trivial = a handler was involved with >=2 subscribers or >=2 evaluations of a tree with >=2 effects; " +
